@@ -699,7 +699,14 @@ fn validate_extension_name(
 }
 
 fn validate_tuple_config(tuple_size: usize, number_of_tuples: usize) -> Result<()> {
-    if (tuple_size == 0 || number_of_tuples == 0) && (tuple_size != 0 || number_of_tuples != 0) {
+    if tuple_size > 32 || number_of_tuples > 32 {
+        Err(RocflError::InvalidConfiguration(format!(
+            "tupleSize (={}) and numberOfTuples (={}) must be between 0 and 32, inclusive.",
+            tuple_size, number_of_tuples
+        )))
+    } else if (tuple_size == 0 || number_of_tuples == 0)
+        && (tuple_size != 0 || number_of_tuples != 0)
+    {
         Err(RocflError::InvalidConfiguration(format!(
             "If tupleSize (={}) or numberOfTuples (={}) is set to 0, then both must be 0.",
             tuple_size, number_of_tuples
